@@ -10,5 +10,5 @@ def run(ctx):
     corpus = [(c["prog"], c["crash_at"]) for c in json.load(open(os.path.join(os.path.dirname(__file__), "..", "C06", "corpus.json")))]
     for r in RUNS:
         r["ticks"] = tuple(r["ticks"])
-    kprops.kernel_check(ctx, "C10", runs=RUNS, preds=['C10', 'C06', 'C05'], corpus=corpus,
+    kprops.kernel_check(ctx, "C10", runs=RUNS, preds=['C10', 'C05s', 'C09r', 'C06', 'C05'], corpus=corpus,
                         rule='random kernel programs with conditional auxiliaries at different depths whose conditions toggle at arbitrary ticks, auxiliaries that complete immediately, later or never, and transitions that leave the main frame; traces (incl. the truncated active outline after every send) compared with the Coq model. Corpus replays the open finding. Non-trivial = outline change and > 6 events')
